@@ -32,7 +32,7 @@ def Ack.abs (k : Nat) (p : Ack) : SPacket :=
   .ack k p.packetID (if p.occs = [] then (if p.reasonCode = 0 then .bare else .reason) else .full) p.reasonCode p.occs
 
 theorem Ack.props_eq (p : Ack) (h : UpsInRange p.userProps) : p.props = propBytes p.occs := by
-  have := (Tie.T2_acks p).1
+  have := (Tie.M2_acks p)
   rw [this, encFields_eq, encUserProps_eq _ (ups_keys _ h), ← propBytes_append]; rfl
 
 theorem Ack.occs_legal (k : Nat) (p : Ack) (h : p.InDomain k) : propsLegal k p.occs = true := by
@@ -151,7 +151,7 @@ def Disconnect.abs (p : Disconnect) : SPacket :=
   .disconnect (if p.reasonCode = 0 ∧ p.occs = [] then .bare else .full) p.reasonCode p.occs
 
 theorem Disconnect.props_eq (p : Disconnect) (h : UpsInRange p.userProps) : p.props = propBytes p.occs := by
-  rw [(Tie.T2_disconnect p).1, encFields_eq, encUserProps_eq _ (ups_keys _ h), ← propBytes_append]; rfl
+  rw [(Tie.M2_disconnect p), encFields_eq, encUserProps_eq _ (ups_keys _ h), ← propBytes_append]; rfl
 
 theorem occsOf_nil_iff (fs : List (UInt8 × WVal)) : occsOf fs = [] ↔ ∀ f ∈ fs, f.2.isZero = true := by
   simp [occsOf, List.filter_eq_nil_iff]
@@ -214,7 +214,7 @@ def Auth.abs (p : Auth) : SPacket :=
   .auth (if p.reasonCode = 0 ∧ p.occs = [] then .bare else .full) p.reasonCode p.occs
 
 theorem Auth.props_eq (p : Auth) (h : UpsInRange p.userProps) : p.props = propBytes p.occs := by
-  rw [(Tie.T2_auth p).1, encFields_eq, encUserProps_eq _ (ups_keys _ h), ← propBytes_append]; rfl
+  rw [(Tie.M2_auth p), encFields_eq, encUserProps_eq _ (ups_keys _ h), ← propBytes_append]; rfl
 
 theorem E_auth (p : Auth) (h : p.InDomain) :
     p.abs.Legal ∧ p.abs.unparse = p.encode ∧ p.abs.view = (Packet.auth p).view := by
